@@ -161,6 +161,15 @@ func evalC18(c *engine.Case) engine.Verdict {
 	if gc.Uncmp {
 		v.Class("non-comparable-vertex-values")
 	}
+	if gc.HashKey {
+		v.Class("hash-codes-that-are-hashable-themselves")
+	}
+	for t := 0; t < gc.N; t++ {
+		if ref[t] == int(^uint(0)>>1) {
+			v.Class("distance-exactly-the-largest-int")
+			break
+		}
+	}
 	for e := range w {
 		if e[0] == e[1] {
 			v.Class("self-loop")
@@ -202,7 +211,7 @@ func genC18(g engine.G) *engine.Case {
 		// weights close to the largest int: most path sums do not fit an int
 		// (they are farther than anything representable), the shortest ones do
 		const maxInt = int(^uint(0) >> 1)
-		pal := []int{0, 0, 1, 2, maxInt - 1, maxInt - 2, maxInt / 2, maxInt/2 + 1, maxInt / 3}
+		pal := []int{0, 0, 1, 2, 5, maxInt, maxInt - 1, maxInt - 2, maxInt - 5, maxInt / 2, maxInt/2 + 1, maxInt / 3}
 		for i := range gc.Edges {
 			gc.Edges[i][2] = engine.Pick(g, pal)
 		}
